@@ -346,6 +346,8 @@ def rule_phis_and_locals(ctx):
             f = fn
     if f is None:
         ctx.missing(R, "Statement::insert_ssa_variables")
+    elif eval_children_renamed(ctx, R, f) and False:
+        pass
     elif not eval_written_variable(ctx, R, f):
         ms = [m for m in walk(f["body"]) if m["k"] == "Match" and render(strip(m["scrut"])) == "self"]
         arm = [a for a in ms[0]["arms"] if "Substitution" in render(a["pat"])] if ms else []
@@ -388,6 +390,80 @@ def rule_phis_and_locals(ctx):
                 rt = render(strip(a["r"])).replace(" ", "")
                 rhs = any(rt == "%s.with_version(%s)" % (nm, v_) for v_ in vb) or (not vb and rt == "%s.with_version(version)" % nm)
                 ctx.check(R, "visit_expression/%s/write%d/only-locals-current-version" % (variant, i + 1), ok and cur and rhs, "versioned under %s" % cs, site(SI, a))
+
+
+def eval_children_renamed(ctx, R, f):
+    """`Statement::insert_ssa_variables` on every statement kind, the expression renamer replaced by a recorder: every
+    expression directly below the statement - condition, value, both sides, every dimension of a declaration of any
+    type, every expression argument of a log call - is handed to the renamer exactly once."""
+    import passeval
+    from finfun import E, NONE, S, Unsupported
+    from passeval import O, Panic, V
+
+    try:
+        w = passeval.PassWorld([IR, SI], SI)
+    except Exception:  # noqa: BLE001
+        return False
+    w.lenient_opaque = True
+    w.method_stubs = {("Statement", "propagate_types"): lambda r, a: ("T", ()), ("Statement", "cache_variable_use"): lambda r, a: ("T", ())}
+    d = a10.enum_def(IR, "Statement")
+    if not d:
+        return False
+    decided = 0
+    for vname, vdef in d.items():
+        kinds = [None]
+        if vname == "Declaration":
+            kinds = [E("VariableType", "Local"), E("VariableType", "Component"), E("VariableType", "AnonymousComponent"), S("Signal", E("SignalType", "Input"), ("L", ()))]
+        problems, unsupported = [], None
+        for vt in kinds:
+            kids = []
+            fields = {}
+            for f_ in vdef["fields"]:
+                nm, ty = f_["name"], f_["ty"].replace(" ", "")
+                if ty in ("Expression", "Box<Expression>"):
+                    fields[nm] = O("expr:" + nm)
+                    kids.append(fields[nm])
+                elif ty == "Vec<Expression>":
+                    fields[nm] = ("L", (O("expr:%s[0]" % nm), O("expr:%s[1]" % nm)))
+                    kids += list(fields[nm][1])
+                elif ty == "Vec<LogArgument>":
+                    e_ = O("expr:log-argument")
+                    fields[nm] = ("L", (S("String", "text"), S("Expr", e_), S("String", "more text"), S("Expr", O("expr:log-argument-2"))))
+                    kids += [e_, fields[nm][1][3][2][0]]
+                elif ty == "VariableType":
+                    fields[nm] = vt
+                elif ty == "VariableName":
+                    fields[nm] = ("O", "name", (("version", NONE), ("with_version", ("PY", lambda v_: O("name@%r" % (v_,))))))
+                else:
+                    fields[nm] = O("%s.%s" % (vname, nm))
+            if not kids:
+                continue
+            seen = []
+            w.stubs = {"visit_expression": lambda args, seen=seen: (seen.append(args[0]), S("Ok", ("T", ())))[1]}
+            env = ("O", "environment", (("is_local", ("PY", lambda nm_: True)), ("get_next_version", ("PY", lambda nm_: 1)), ("get_current_version", ("PY", lambda nm_: S("Some", 0))), ("declarations", O("declarations"))))
+            node = V("Statement", vname, **fields)
+            try:
+                w.call_fn(f, [node, env])
+            except Unsupported as u:
+                unsupported = str(u)
+                break
+            except Panic as p_:
+                problems.append("panics (%s)" % p_)
+                continue
+            finally:
+                w.stubs = {}
+            for k_ in kids:
+                c_ = sum(1 for y in seen if y is k_)
+                if c_ != 1:
+                    problems.append("`%s`%s is renamed %d time(s)" % (k_[1][5:], (" of a declaration of type %s" % (vt[2] if vt[0] == "E" else vt[1])) if vt is not None else "", c_))
+        if unsupported:
+            ctx.missing(R, "ssa_impl::insert_ssa_variables/%s/evaluation" % vname, "cannot be evaluated (fail closed): %s" % unsupported)
+            continue
+        if problems or decided >= 0:
+            decided += 1
+            ctx.check(R, "ssa_impl::insert_ssa_variables/%s/every-expression-renamed-once" % vname, not problems, "; ".join(sorted(set(problems))[:3]) or "every expression below the statement is handed to the renamer once", site(SI, f))
+    ctx.floor(R, "statement kinds whose renaming traversal was evaluated", decided, 6)
+    return True
 
 
 def eval_written_variable(ctx, R, f):
